@@ -135,11 +135,32 @@ func run(args []string) {
 			report("c09.others", "bystander-not-merged/"+statusClass(o.Status), fmt.Sprintf("a valid identity served beside this one (reported %s) was not merged", o.Status))
 		}
 	}
+	// ---- part 3: identity API sequences (in-process, no git transport)
+	seqLen := 5
+	if tier == "thorough" {
+		seqLen = 6
+	}
+	seqs := c09craft.Sequences(seqLen)
+	seqProblems := map[string]int{}
+	for _, sq := range seqs {
+		r := c09craft.RunSequence(sq)
+		if r.Sig == "harness" {
+			fmt.Fprintln(os.Stderr, "harness error: sequence", r.Seq, r.Problem)
+			harnessErr = true
+			continue
+		}
+		if r.Sig != "" {
+			seqProblems[r.Sig]++
+			rep.Report(evidence.Report{Oracle: "c09.api", Sig: r.Sig, Detail: "identity API sequence [new " + r.Seq + "]: " + r.Problem,
+				Replay: map[string]any{"kind": "apiseq", "seq": sq}, Count: 1})
+		}
+	}
 	cov := map[string]any{
-		"states": states, "transitions": trans + len(results), "traces_validated_against_impl": trans + len(results),
+		"api_sequences": len(seqs), "api_sequence_max_length": seqLen, "api_sequence_problems": seqProblems,
+		"states": states, "transitions": trans + len(results) + len(seqs), "traces_validated_against_impl": trans + len(results) + len(seqs),
 		"exhaustive": exhaustive, "runs": runInfo, "samples": append(samples, map[string]any{"crafted_case": names[len(names)/2]}),
 		"transition_outcomes": outcomes, "crafted_cases": len(results), "crafted_classes": len(classes), "crafted_verdicts": verdicts,
-		"rule": "part 1: breadth-first over all interleavings of mutate/push/pull of one identity on two replicas (states deduplicated by refs, clocks and seam counters), every pull compared with the prefix-relation model of fast-forward merging; part 2: every defect class of the catalogue at every version position of chains of length 1..3, merged by the real identity.MergeAll in a subprocess",
+		"rule": "part 1: breadth-first over all interleavings of mutate/push/pull of one identity on two replicas (states deduplicated by refs, clocks and seam counters), every pull compared with the prefix-relation model of fast-forward merging; part 2: every defect class of the catalogue at every version position of chains of length 1..3, merged by the real identity.MergeAll in a subprocess; part 3: all sequences up to the stated length over {SetMetadata, Id, Mutate name, Commit} on a fresh identity: the id once observed never changes, every commit reads back under that id, earlier stored versions are never rewritten",
 	}
 	ev := evidence.Evidence{PropertyID: "C09", Tier: tier, Seed: int(seed), Level: "model_checking", Coverage: cov,
 		Assumptions: []string{"real identity.Fetch/Push/MergeAll on go-git repositories on tmpfs, in-process transport",
@@ -213,11 +234,22 @@ func doReplay(path string) int {
 			Params json.RawMessage `json:"params"`
 			Path   []string        `json:"path"`
 			Case   string          `json:"case"`
+			Seq    []string        `json:"seq"`
 		} `json:"replay"`
 	}
 	if err := json.Unmarshal(b, &f); err != nil {
 		fmt.Fprintln(os.Stderr, err)
 		return 2
+	}
+	if f.Replay.Kind == "apiseq" {
+		r := c09craft.RunSequence(f.Replay.Seq)
+		fmt.Printf("sequence %v: %s %s\n", f.Replay.Seq, r.Sig, r.Problem)
+		if r.Sig == f.Sig {
+			fmt.Println("reproduced")
+			return 1
+		}
+		fmt.Println("not reproduced")
+		return 0
 	}
 	if f.Replay.Kind == "craft" {
 		res, err := subproc.Run([]string{"c09craft"}, []string{f.Replay.Case}, 1)
